@@ -5,6 +5,7 @@ import (
 
 	"fmt"
 	"math"
+	"reflect"
 	"strings"
 	"sync/atomic"
 	"unicode"
@@ -510,8 +511,20 @@ func (i *Interpreter) evaluateEq(left, right interface{}) (interface{}, error) {
 		return coercedLeft == coercedRight, nil
 	}
 
+	// Arrays, objects and other values whose Go representation is not
+	// comparable would make the interface comparison below panic. Like the
+	// VM's == and the switch statement's matching, they are never equal.
+	if !isComparableValue(left) || !isComparableValue(right) {
+		return false, nil
+	}
+
 	// For non-numeric types, compare directly
 	return left == right, nil
+}
+
+// isComparableValue reports whether v can be an operand of Go's == without panicking.
+func isComparableValue(v interface{}) bool {
+	return v == nil || reflect.ValueOf(v).Comparable()
 }
 
 // evaluateNe handles inequality comparison
